@@ -54,7 +54,7 @@ variable [Select.HasNatFloor K]
 /-- **a stack with `SetCash(c)` runs exactly as the same stack with `ScaleWeights(1 − c)` as its last post step** (strategy not
     fixed-income), on every day and every world -/
 theorem progRunX_cash_eq_scale (cfg : Cfg K) (p : ProgX K) (c : K) (path : List Nat) (d : Nat) (w : World K)
-    (hc : p.cash = some c) (hfi : NotFI cfg w path) :
+    (hc : p.cash = some c) (hfi : NotFI cfg w path) (hnc : ∀ st ∈ p.post, WStep.isClose st = false) :
     progRunX cfg p path d w =
       progRunX cfg { p with post := p.post ++ [.scale (1 - c)], cash := none } path d w := by
   unfold progRunX
@@ -77,15 +77,20 @@ theorem progRunX_cash_eq_scale (cfg : Cfg K) (p : ProgX K) (c : K) (path : List 
           | none => rfl
           | some sel =>
             simp only
-            split
-            · rfl
-            · rw [postSteps_append, bind_assoc', hc]
+            have hwx : weigherX { p with post := p.post ++ [.scale (1 - c)], cash := none } d sel = weigherX p d sel := rfl
+            rw [hwx]
+            refine bind_congr' fun r _ => ?_
+            cases r with
+            | none => rfl
+            | some ws0 =>
+              simp only
+              rw [postSteps_append, bind_assoc', hc]
               refine bind_congr' fun s hs1 => ?_
               obtain ⟨w1, ws1⟩ := s
               rw [postSteps_single, postStep_scale, bind_ok']
               refine rebalance_cash_is_scale cfg w1 path ws1 c ?_
               intro w2 sd2 ks2 hr2 hn2
-              rcases postSteps_world _ hs1 with e | hr
+              rcases postSteps_world _ hnc hs1 with e | hr
               · rw [e] at hr2; exact hfi w2 sd2 ks2 hr2 hn2
               · rw [refresh_idem_aux hr] at hr2
                 cases hr2
@@ -128,7 +133,7 @@ theorem wXA_notFI : NotFI cfgE wXA [] := by
 example : progRunX cfgE progWD [] 1 wXA = progRunX cfgE progWD' [] 1 wXA ∧
     (btRun cfgE (treeRunG gtreeWD []) 1000 [0, 1, 2, 3] wXA).toOption.map rootWeights =
       (btRun cfgE (treeRunG gtreeWD' []) 1000 [0, 1, 2, 3] wXA).toOption.map rootWeights :=
-  ⟨progRunX_cash_eq_scale cfgE progWD (1/4) [] 1 wXA rfl wXA_notFI, by decide +kernel⟩
+  ⟨progRunX_cash_eq_scale cfgE progWD (1/4) [] 1 wXA rfl wXA_notFI (by decide), by decide +kernel⟩
 
 /-- … and `Rebalance` itself: 60/40 with a quarter set aside is 45/30 -/
 example : algoRebalance cfgE wXA [] [(0, 3/5), (1, 2/5)] (some (1/4)) none =
